@@ -59,11 +59,11 @@ def md(name, mode, npts, cmax, eps=1, epsrec=1, exact=True, tiers=Q, timeout=900
                        % ('exactly' if exact else 'up to', npts, cmax, eps, epsrec, miss, 'every query point' if mode == 0 else 'every box with min <= max'))
 
 
-def dyn(name, nbulk, nops, kmax=5, vmax=3, base=2, bufl=1, idxl=2, eps=1, epsrec=1, tiers=Q, timeout=900):
-    d = dict(NBULK=nbulk, MAXBULK=max(nbulk, 1), NOPS=nops, KMAX=kmax, VMAX=vmax, BASE=base, BUFL=bufl, IDXL=idxl, EPS=eps, EPSREC=epsrec,
+def dyn(name, mode, nbulk, nops, kmax=5, vmax=3, base=2, bufl=1, idxl=2, eps=1, epsrec=1, tiers=Q, timeout=900):
+    d = dict(DMODE=mode, NBULK=nbulk, MAXBULK=max(nbulk, 1), NOPS=nops, KMAX=kmax, VMAX=vmax, BASE=base, BUFL=bufl, IDXL=idxl, EPS=eps, EPSREC=epsrec,
              MAXOUT=kmax + 1, VERIF_VEC_CAP=max(nbulk + nops + 4, 10), VERIF_VECVEC_CAP=32, VERIF_SET_CAP=kmax + 2)
     return dict(name=name, unit='dyn.cpp', harness='h_dyn.c', defs=d, narrow=16, timeout=timeout, tiers=tiers,
-                bounds='bulk-load of %d sorted pairs then every history of %d insert_or_assign/erase operations over keys 0..%d and values 0..%d; '
+                bounds=['find/count/lower_bound', 'begin()..end() traversal', 'LSM invariants', 'size/empty/range', 'traversal from lower_bound'][mode] + ' after a bulk-load of %d sorted pairs then every history of %d insert_or_assign/erase operations over keys 0..%d and values 0..%d; '
                        'base=%d, buffer_level=%d (buffer of %d), index_level=%d (levels >= %d carry a PGM-index with Epsilon=%d); all queries afterwards'
                        % (nbulk, nops, kmax, vmax, base, bufl, sum(base ** i for i in range(bufl + 1)), idxl, max(idxl, bufl + 1), eps))
 
@@ -92,7 +92,9 @@ JOBS['C04'] = [pla('pla_max_k3_e%d_x15' % e, 3, epsfix=e, xmax=15, ymax=6) for e
               [pla('pla_max_k3_e1_x63', 3, epsfix=1, xmax=63, ymax=6, tiers=T, timeout=3000)]
 JOBS['C14'] = [md('md_contains_n1', 0, 1, 3), md('md_contains_n2', 0, 2, 3)]
 JOBS['C13'] = [md('md_range_n1', 1, 1, 3), md('md_range_n2', 1, 2, 3), md('md_range_n3_skip', 1, 3, 3, miss=0), md('md_range_n4_skip', 1, 4, 3, miss=0, tiers=T, timeout=3000)]
-JOBS['C05'] = [dyn('dyn_b0_o2', 0, 2), dyn('dyn_b0_o3', 0, 3), dyn('dyn_noidx_b0_o4', 0, 4, idxl=10), dyn('dyn_noidx_b2_o2', 2, 2, idxl=10)]
+JOBS['C05'] = [dyn('dyn_q_noidx_b0_o2', 0, 0, 2, idxl=10), dyn('dyn_q_noidx_b0_o4', 0, 0, 4, idxl=10), dyn('dyn_q_idx_b0_o4', 0, 0, 4, idxl=2, tiers=T, timeout=3000)]
+JOBS['C06'] = [dyn('dyn_it_noidx_b0_o2', 1, 0, 2, idxl=10), dyn('dyn_rng_noidx_b0_o2', 3, 0, 2, idxl=10), dyn('dyn_lbit_noidx_b0_o2', 4, 0, 2, idxl=10), dyn('dyn_it_noidx_b0_o4', 1, 0, 4, idxl=10, tiers=T, timeout=3000)]
+JOBS['C15'] = [dyn('dyn_inv_noidx_b0_o4', 2, 0, 4, idxl=10), dyn('dyn_inv_idx_b0_o4', 2, 0, 4, idxl=2, tiers=T, timeout=3000)]
 JOBS['C11'] = [mapped('mapped_u8_n2', 'uint8_t', 2), mapped('mapped_i8_n3', 'int8_t', 3), mapped('mapped_u8_n3_dense', 'uint8_t', 3, ord_hi=3)]
 
 JOBS['C02'] = JOBS['C01']
